@@ -131,7 +131,13 @@ pub fn eval(expr: Node) -> Result<f64, Box<dyn error::Error>> {
                 #[cfg(feature = "verif_hooks")]
                 crate::verif_hooks::tick(crate::verif_hooks::Point::EvalLoop);
                 x += 1.0;
-                n = (n.log10() / b.log10()).floor();
+                let next = (n.log10() / b.log10()).floor();
+                if !(next < n) {
+                    // the logarithm no longer decreases (base <= 1, infinite argument or a
+                    // fixed point of a base close to 1): the iteration count is infinite
+                    return Ok(f64::INFINITY);
+                }
+                n = next;
             }
             Ok(x)
         }
